@@ -38,7 +38,19 @@ def fnum(x):
 
 
 def op_argv(op, knobs, load_argv=None):
-    """argv (with {db}) for an op name; step name for mutating ops else None."""
+    """argv (with {db}) for an op name, including the shared logging flags."""
+    argv = _op_argv(op, knobs, load_argv)
+    if op == "load-again" or op.endswith("-badargs"):
+        return argv
+    extra = []
+    if knobs.get("verbosity"):
+        extra.append("-" + "v" * int(knobs["verbosity"]))
+    if knobs.get("logfile"):
+        extra += ["--logfile", "{db}.log"]
+    return argv + extra
+
+
+def _op_argv(op, knobs, load_argv=None):
     s, j = knobs["thresholds"]
     g = knobs["grid_mm"]
     ref = knobs.get("reference_%s_mm" % op, knobs.get("reference_mm")) if op in ("rise", "recession") else None
